@@ -323,12 +323,18 @@ pub enum NextItem {
 /// Deepest nesting of parentheses and prefix operators that is handed to the recursive line parser
 const MAX_NESTING: usize = 64;
 
-/// Whether the nesting of parentheses and prefix operators in a line is shallow enough for the recursive parser.
+/// Most operator characters one operand may hold: a chain `a+b+c+...` builds an expression tree with one level per
+/// operator, and the tree is cloned, compared, printed and dropped recursively
+const MAX_OPERATORS: usize = 1024;
+
+/// Whether the expressions of a line are shallow enough for the recursive parser and for the recursive walks over the
+/// trees it builds: nesting of parentheses and prefix operators, and operators chained in one operand.
 /// Only the part in front of the trailing comment counts: a rule of dashes in a comment nests nothing.
 fn nesting_is_parsable(line: &str) -> bool {
     let code = document::code_part(line).unwrap_or(vec![line]);
     let mut depth: usize = 0;
     let mut prefix_run: usize = 0;
+    let mut operators: usize = 0;
     for c in code.iter().flat_map(|piece| piece.chars()) {
         match c {
             '(' => {
@@ -341,10 +347,21 @@ fn nesting_is_parsable(line: &str) -> bool {
                 }
                 prefix_run = 0;
             }
-            '-' | '~' | '!' => prefix_run += 1,
+            '-' | '~' | '!' => {
+                prefix_run += 1;
+                operators += 1;
+            }
+            '+' | '*' | '/' | '%' | '&' | '|' | '^' | '<' | '>' | '=' => {
+                prefix_run = 0;
+                operators += 1;
+            }
+            ',' => {
+                prefix_run = 0;
+                operators = 0;
+            }
             _ => prefix_run = 0,
         }
-        if depth + prefix_run > MAX_NESTING {
+        if depth + prefix_run > MAX_NESTING || operators > MAX_OPERATORS {
             return false;
         }
     }
@@ -452,7 +469,7 @@ pub fn parse_iter<'a>(
             let line_num = line_num + 1;
             if !nesting_is_parsable(line) {
                 bail!(
-                    "expression nested too deeply, {}",
+                    "expression nested too deeply or too long, {}",
                     CodePoint { line_num, num: 1 }
                 );
             }
